@@ -6,6 +6,7 @@ import Stackage.Driver.Traverse
 import Stackage.Driver.Alias
 import Stackage.Driver.Opts
 import Stackage.Driver.Sweep
+import Stackage.Driver.Defrag
 
 /-! Correspondence driver: case lines on stdin, `<id> M <model>` and `<id> S <spec>` lines on stdout. -/
 
@@ -22,6 +23,7 @@ def dispatch (stream payload : String) : String × String × String :=
   else if stream == "alias" then runAlias payload
   else if stream == "opts" then runOpts payload
   else if ["frozen", "inert", "queries"].contains stream then runSweep payload
+  else if stream == "nilpat" then runDefrag payload
   else ("NOSTREAM", "NOSTREAM", "")
 
 partial def loop (h : IO.FS.Stream) (out : IO.FS.Stream) : IO Unit := do
